@@ -91,6 +91,19 @@ func (Engine) Run(t *tape.Tape, o eng.Opts) *eng.Result {
 	mutate := backing != 1 && !faultFree && sw.Intn(3) == 1
 	cfg := sched.Config{Sched: t.Stream("sched"), Time: t.Stream("time"), MaxSteps: world.StepCap(12000), KeepLog: o.Trace}
 	world.PickPolicy(sw, &cfg)
+	// "Whenever it cannot serve ... it writes nothing" holds under load too: now and then 70-100
+	// requests are in flight through one Static at once and advance in lock step, so that
+	// whatever it bounds per instance (open files, slots) meets more holders than it has room for.
+	stormOdds := 20
+	if world.AutoMode || sched.RaceOn {
+		stormOdds = 60
+	}
+	storm := sw.Intn(stormOdds) == 1
+	if storm {
+		cfg.Policy = sched.PolRoundRobin
+		cfg.MaxSteps = world.StepCap(80000)
+		res.Probes["task_storms"]++
+	}
 
 	spec := &world.StaticSpec{Prefix: prefixes[gen.Weighted(12, 8, 12, 4, 4, 4, 2, 2, 1, 1)], Index: indexes[gen.Weighted(4, 2, 1, 1, 1)], ETag: gen.Intn(2) == 1,
 		Expires: gen.Intn(3) == 1, CacheControl: gen.Intn(3) == 1, Logging: gen.Intn(4) == 1, UseDirectory: backing == 2, DefaultDir: backing == 3, AlsoDirectory: backing < 2 && gen.Intn(3) == 1}
@@ -113,11 +126,17 @@ func (Engine) Run(t *tape.Tape, o eng.Opts) *eng.Result {
 	}
 
 	nt := gen.Range(1, 4)
+	if storm {
+		nt = gen.Range(70, 100)
+	}
 	reqs := make([][]*world.Req, nt)
 	var infos []*reqInfo
 	id := 0
 	for ti := range reqs {
 		n := gen.Range(1, 3)
+		if storm {
+			n = 1
+		}
 		for k := 0; k < n; k++ {
 			gen.Begin("req")
 			q := &world.Req{ID: id, Name: "q" + itoa(id), PlannedCancel: -1}
